@@ -226,7 +226,9 @@ def run_harness(exe, ops, workdir, tag, extra_args=()):
         crashes += 1
         start += k + 1
         if crashes > 200:
-            raise RuntimeError("harness crashes on more than 200 inputs; last stderr:\n" + err[-3000:])
+            # crash flood: do not restart any more; every remaining line is reported as such
+            outs.extend(["crash:flood"] * (len(ops) - len(outs)))
+            break
     return outs
 
 
@@ -267,17 +269,33 @@ def strip_lean_comments(src):
     return "".join(out)
 
 
-def textual_audit():
+def import_closure(modules):
+    """Files of the lake project reachable from `modules` through `import` lines."""
+    seen = {}
+    todo = list(modules)
+    while todo:
+        m = todo.pop()
+        if m in seen:
+            continue
+        path = os.path.join(LEAN, *m.split(".")) + ".lean"
+        if not os.path.exists(path):
+            continue
+        seen[m] = path
+        for line in strip_lean_comments(open(path).read()).split("\n"):
+            mm = re.match(r"\s*(?:public\s+)?import\s+((?:RtoscModel|Driver)[A-Za-z0-9_.]*)", line)
+            if mm:
+                todo.append(mm.group(1))
+    return seen
+
+
+def textual_audit(modules):
+    """No sorry/admit/axiom/native_decide/... in any file the property's theorems depend on."""
     bad = []
-    for root, _, fs in os.walk(os.path.join(LEAN, "RtoscModel")):
-        for f in fs:
-            if not f.endswith(".lean"):
-                continue
-            p = os.path.join(root, f)
-            code = strip_lean_comments(open(p).read())
-            for ln, line in enumerate(code.split("\n"), 1):
-                if FORBIDDEN.search(line):
-                    bad.append("%s:%d: %s" % (os.path.relpath(p, LEAN), ln, line.strip()[:100]))
+    for m, p in sorted(import_closure(modules).items()):
+        code = strip_lean_comments(open(p).read())
+        for ln, line in enumerate(code.split("\n"), 1):
+            if FORBIDDEN.search(line):
+                bad.append("%s:%d: %s" % (os.path.relpath(p, LEAN), ln, line.strip()[:100]))
     return bad
 
 
@@ -451,7 +469,7 @@ def _run(mod, args, workdir, t0):
         broken = ["module " + m for m in broken_mods]
         if not ok_drv:
             broken.append("driver (model does not compile)")
-    bad_text = textual_audit()
+    bad_text = textual_audit(modules)
     if bad_text:
         broken += ["textual-audit " + b for b in bad_text]
     axioms_seen = set()
